@@ -185,11 +185,13 @@ fn one_run(run: usize, seed: u64, steps: usize, index: u64, mute_timeout_s: u32,
                     }
                 }
             } else {
+                let mut saved_file: Option<Value> = None;
                 let (op, o) = if r < 15 {
-                    let (o, _, pb) = rig.save_state(&conc, &save_path, deadline);
+                    let (o, proj, pb) = rig.save_state(&conc, &save_path, deadline);
                     for p in pb {
                         out.violations.push(("save:unreadable".into(), json!({"problem": p})));
                     }
+                    saved_file = proj;
                     (json!({"kind": "save"}), o)
                 } else if r < 21 && !rig.has_live_mute() {
                     (json!({"kind": "load"}), rig.request(RequestType::LoadState(save_path.clone()), deadline))
@@ -210,7 +212,9 @@ fn one_run(run: usize, seed: u64, steps: usize, index: u64, mute_timeout_s: u32,
                         break 'steps;
                     }
                 }
-                out.events.push(json!({"ev": "op", "run": run, "op": op, "verdict": o.verdict, "msg": o.message.chars().take(120).collect::<String>()}));
+                // a save event carries the parsed content of the file that was written
+                out.events.push(json!({"ev": "op", "run": run, "op": op, "verdict": o.verdict, "msg": o.message.chars().take(120).collect::<String>(),
+                    "hasfile": saved_file.is_some(), "file": saved_file.unwrap_or(json!({}))}));
             }
         }
         if let Some(f) = rig.hub_finished() {
